@@ -228,10 +228,13 @@ def extend_schema(
     ]
 
     # Cast is safe as type defs will always lead to named types and not wrapped types
+    # All known types go through the builder (not only the extended ones) so
+    # that types which are not reachable from the root types, e.g. object
+    # types only known as implementations of an interface, are kept.
     types = [
         cast(NamedType, builder.extend_type(t))
         for t in schema.types.values()
-        if t.name in type_exts
+        if not t.name.startswith("__")
     ] + [
         cast(NamedType, builder.extend_type(builder.build_type(t)))
         for t in type_defs.values()
